@@ -194,6 +194,15 @@ def clipSegment (b : Aabb3 K) (pa pb : V3 K) : Option (Segment3 K) :=
     let t1 := nmin c.2.1 1
     if t1 < t0 then none else some ⟨pa.add (ab.smul t0), pa.add (ab.smul t1)⟩
 
+/-- `Aabb::clip_line(orig, dir)`: `clip_aabb_line(..).map(|clip| Segment::new(orig + dir * (clip.0).0, orig + dir * (clip.1).0))` -/
+def clipLine (b : Aabb3 K) (o d : V3 K) : Option (Segment3 K) :=
+  (clipAabbLineC b o d).map fun c => ⟨o.add (d.smul c.1.1), o.add (d.smul c.2.1)⟩
+
+/-- `Aabb::clip_ray(ray)`: `clip_ray_parameters(ray).map(|clip| Segment::new(ray.point_at(clip.0), ray.point_at(clip.1)))`,
+`point_at(t) = origin + dir * t` -/
+def clipRay (b : Aabb3 K) (o d : V3 K) : Option (Segment3 K) :=
+  (clipRayParameters b o d).map fun c => ⟨o.add (d.smul c.1), o.add (d.smul c.2)⟩
+
 /-! ## `clip_halfspace_polygon` (clip_halfspace_polygon.rs) and `Aabb::clip_polygon` (clip_aabb_polygon.rs) -/
 
 /-- `line_toi_with_halfspace` (ray_halfspace.rs) -/
